@@ -480,6 +480,26 @@ def handleCompile (j : Json) : Except String Json := do
   | "exactlyinarow" => return Json.mkObj [("ok", Json.arr ((Compile.exactlyInARowFormulas k vars).map formulaJson).toArray)]
   | _ => throw s!"unknown compile method {m}"
 
+def handleConform (j : Json) : Except String Json := do
+  let m ← getStr j "m"
+  match m with
+  | "conforms" =>
+    let kind ← match (← getStr j "kind") with
+      | "atmost" => pure Conform.Kind.atMost | "atleast" => pure Conform.Kind.atLeast
+      | "exactlyinarow" => pure Conform.Kind.exactlyInARow | "exactlyk" => pure Conform.Kind.exactlyK
+      | k => throw s!"bad kind {k}"
+    let xs ← j.getObjValAs? (Array Bool) "xs"
+    return Json.mkObj [("ok", toJson (Conform.conformsRange kind (← getNat j "k") xs.toList))]
+  | "after_blocks" =>
+    let gs ← j.getObjValAs? (Array (Array Nat)) "gs"
+    let l := gs.toList.map (fun a => (a.getD 0 0, a.getD 1 0))
+    return Json.mkObj [("ok", match Conform.afterBlocks l with | some g => jNats [g.1, g.2] | none => Json.null)]
+  | "smgen_refuses" =>
+    let kinds ← j.getObjValAs? (Array String) "kinds"
+    let windows ← j.getObjValAs? (Array String) "windows"
+    return Json.mkObj [("ok", toJson (Conform.smgenRefuses (← getNat j "n") kinds.toList windows.toList))]
+  | _ => throw s!"unknown conform method {m}"
+
 def handle (j : Json) : Except String Json := do
   let op ← getStr j "op"
   match op with
@@ -492,6 +512,7 @@ def handle (j : Json) : Except String Json := do
   | "api" => handleApi j
   | "layout" => handleLayout j
   | "compile" => handleCompile j
+  | "conform" => handleConform j
   | _ => throw s!"unknown op {op}"
 
 partial def loop (h : IO.FS.Stream) (out : IO.FS.Stream) : IO Unit := do
